@@ -363,7 +363,7 @@ ENVIRONMENTS = [
 def spawn_saved(extra_env, timeout=600):
     env = {k: v for k, v in os.environ.items() if k not in ("LC_ALL", "LANG", "LC_CTYPE", "PYTHONUTF8", "PYTHONCOERCECLOCALE", "PYTHONIOENCODING")}
     env.update(extra_env, PYTHONHASHSEED="0", PYTHONDONTWRITEBYTECODE="1")
-    p = subprocess.run([sys.executable, "-m", "hv.checks.c18", "child", "saved"], cwd=VERIF, env=env, capture_output=True, text=True, timeout=timeout)
+    p = subprocess.run([sys.executable] + (["-O"] if sys.flags.optimize else []) + ["-m", "hv.checks.c18", "child", "saved"], cwd=VERIF, env=env, capture_output=True, text=True, timeout=timeout)
     if p.returncode != 0:
         raise RuntimeError("child failed (%r): %s" % (extra_env, p.stderr[-1500:]))
     return json.loads(p.stdout)
@@ -417,7 +417,7 @@ def child_main(argv):
 # ------------------------------------------------------------------ parent
 def spawn(hashseed, seed, n, mode, extra=None, timeout=1800):
     env = dict(os.environ, PYTHONHASHSEED=str(hashseed), PYTHONDONTWRITEBYTECODE="1")
-    cmd = [sys.executable, "-m", "hv.checks.c18", "child", str(seed), str(n), mode] + ([extra] if extra else [])
+    cmd = [sys.executable] + (["-O"] if sys.flags.optimize else []) + ["-m", "hv.checks.c18", "child", str(seed), str(n), mode] + ([extra] if extra else [])
     p = subprocess.run(cmd, cwd=VERIF, env=env, capture_output=True, text=True, timeout=timeout)
     if p.returncode != 0:
         raise RuntimeError("child failed (hashseed=%s): %s" % (hashseed, p.stderr[-1500:]))
